@@ -189,7 +189,7 @@ def h_rejection(ctx, fmt="wfn"):
                    not ev and ctx.read_text(path) == ("OLD CONTENT\n" if exists else None), cls=cls, detail=str(ev))
 
 
-def h_fchk_aufbau(ctx, norb=2, twin=False):
+def h_fchk_aufbau(ctx, norb=2, twin=False, kind="unrestricted"):
     """FCHK: PrepareDumpError iff the alpha/beta occupations are not 'ones then zeros' (symbolic occupations)."""
     import iodata.api as api
     import iodata.attrutils as A
@@ -204,9 +204,19 @@ def h_fchk_aufbau(ctx, norb=2, twin=False):
         occa = ctx.real_array("oa", (norb,), lo=0, hi=1)
         occb = ctx.real_array("ob", (norb,), lo=0, hi=1)
         mo0 = kw["mo"]
-        kw["mo"] = O.MolecularOrbitals("unrestricted", norb, norb, np.concatenate([occa, occb]) if ctx.mode == "conc"
-                                       else np.array(list(occa) + list(occb), dtype=object),
-                                       np.hstack([mo0.coeffs[:, :norb], mo0.coeffs[:, :norb]]), None, None)
+        if kind == "unrestricted":
+            kw["mo"] = O.MolecularOrbitals("unrestricted", norb, norb, np.concatenate([occa, occb]) if ctx.mode == "conc"
+                                           else np.array(list(occa) + list(occb), dtype=object),
+                                           np.hstack([mo0.coeffs[:, :norb], mo0.coeffs[:, :norb]]), None, None)
+        else:
+            # restricted orbitals whose alpha/beta occupations are given through occs and occs_aminusb
+            tot = occa + occb
+            dif = occa - occb
+            kw["mo"] = O.MolecularOrbitals("restricted", norb, norb, tot, mo0.coeffs[:, :norb], None, None,
+                                           dif if kind == "restricted-aminusb" else None)
+            if kind == "restricted":
+                # without occs_aminusb the documented heuristic defines alpha/beta: use the class's own accessors
+                occa, occb = kw["mo"].occsa, kw["mo"].occsb
         data = IOData(**kw)
         try:
             fchk.prepare_dump(data, False, "a.fchk")
@@ -223,7 +233,7 @@ def h_fchk_aufbau(ctx, norb=2, twin=False):
         ok = And(aufbau(list(occa)), aufbau(list(occb)))
         if twin:
             ok = aufbau(list(occa))
-        ctx.oblige("fchk-rejects-exactly-non-aufbau-occupations", Not(ok) if rejected else ok, cls=f"norb={norb}")
+        ctx.oblige("fchk-rejects-exactly-non-aufbau-occupations", Not(ok) if rejected else ok, cls=f"{kind},norb={norb}")
 
 
 def h_write_fault(ctx, fmt="xyz", many=False, kmax=12):
@@ -321,7 +331,9 @@ def jobs(tier):
     for fmt in REASONS:
         out.append(job("C08", f"rejection[{fmt}]", M, "h_rejection", dict(fmt=fmt), max_validate=12))
     for n in (1, 2) + ((3,) if tier == "thorough" else ()):
-        out.append(job("C08", f"fchk-aufbau[norb={n}]", M, "h_fchk_aufbau", dict(norb=n), budget_s=300, max_validate=10))
+        for kind in ("unrestricted", "restricted", "restricted-aminusb"):
+            out.append(job("C08", f"fchk-aufbau[{kind},norb={n}]", M, "h_fchk_aufbau", dict(norb=n, kind=kind), budget_s=300,
+                           max_validate=10))
     out.append(job("C08", "fchk-aufbau[twin]", M, "h_fchk_aufbau", dict(norb=1, twin=True), expect="cex"))
     kmax = 12 if tier == "quick" else 60
     for fmt in DUMP_ONE:
